@@ -30,6 +30,20 @@ def describe(rec):
     return json.dumps(c)[:300]
 
 
+def _slim(rec):
+    """keep replay files readable: cut very long observation lists"""
+    txt = json.dumps(rec)
+    if len(txt) < 20000:
+        return rec
+    def cut(v, depth=0):
+        if isinstance(v, list):
+            return [cut(x, depth + 1) for x in v[:12]] + (['...%d more' % (len(v) - 12)] if len(v) > 12 else [])
+        if isinstance(v, dict):
+            return {k: cut(x, depth + 1) for k, x in v.items()}
+        return v
+    return cut(rec)
+
+
 def spec_to_code(rep: Report, env, conf, module, cfg, what, var='call', transform=None, timeout=3000,
                  extra_env=None, max_calls=None):
     """(a)+(b): model-check the family, dump it, return the calls."""
@@ -61,18 +75,18 @@ def _tlc_error(out):
 
 
 def code_to_spec(rep: Report, env, conf, calls, what, module='PureTrace', hashseed=0, kind=None, tag='t',
-                 script='run_calls.py', extra=None, envs=None, per=500, chunk=20000):
+                 script='run_calls.py', extra=None, envs=None, per=500, chunk=20000, split_on=None):
     """(b)+(c): execute calls on the implementation and validate the trace."""
     if not calls:
         return None
     trace = execute(env, calls, hashseed=hashseed, script=script, extra=extra, tag=tag, envs=envs, per=per)
-    v = validate(trace, conf, module=module, chunk=chunk)
+    v = validate(trace, conf, module=module, chunk=chunk, split_on=split_on)
     rep.add_validation(v, what)
     if v['fails']:
         recs = trace_lines(trace, [i for i, _ in v['fails']])
         for i, clauses in v['fails']:
             rec = recs[i]
-            rep.fail(kind or rec['call'].get('op', '?'), describe(rec) + ' fails ' + ','.join(clauses), record=rec, clauses=clauses)
+            rep.fail(kind or rec['call'].get('op', '?'), describe(rec) + ' fails ' + ','.join(clauses), record=_slim(rec), clauses=clauses)
     with open(trace) as f:
         for n, line in enumerate(f):
             if n % max(1, v['lines'] // 5) == 0:
